@@ -108,8 +108,14 @@ def run(ctx):
                     ko = dep.arg_origins(b, bb, 1, through_calls=False)
                     vo = dep.arg_origins(b, bb, 2, through_calls=False)
                     ok = dep.has_param(ko, "name") and dep.has_param(vo, "ip")
+                why = "%s.name_to_ip is modified by DashMap::%s in %s: a resolved name may disappear from / change in the table" % (owner, m, b.pretty)
+                if not ok and m == "insert" and b.name == "add_mapping":
+                    kt = dep.arg_origins(b, bb, 1, through_calls=True)
+                    via = sorted({a[1].rsplit("::", 1)[-1] for a in dep.arg_origins(b, bb, 1, through_calls=False) if a[0] == "call" and a[1]})
+                    if dep.has_param(kt, "name") and via:
+                        why = "%s.name_to_ip is keyed by %s(name), not by the name itself: distinct names share one entry, so a name can resolve to another name's address without a query" % (owner, "/".join(via))
                 (ctx.ok if ok else ctx.bad)("D-TABLE", "D-TABLE:%s.name_to_ip.%s@%s" % (owner, m, b.key), F.call_loc(t),
-                    "add_mapping inserts (name, ip)" if ok else "%s.name_to_ip is modified by DashMap::%s in %s: a resolved name may disappear from / change in the table" % (owner, m, b.pretty))
+                    "add_mapping inserts (name, ip)" if ok else why)
         ctx.require(n >= 1, "no writer of %s.name_to_ip found (anchor lost)" % owner)
     for owner, body, tbl_is_param in (("DnsClient", gm, False), ("DnsServer", prog.method("DnsServer", "get_mapping"), True)):
         gets = [(bb, t) for bb, t in K.calls(body) if (F.callee_key(t) or "").startswith("dashmap::") and (F.callee_key(t) or "").endswith("::get")]
@@ -118,8 +124,12 @@ def run(ctx):
             probs.append("expected one table lookup, found %d" % len(gets))
         else:
             ko = dep.arg_origins(body, gets[0][0], 1, through_calls=True)
+            kd = dep.arg_origins(body, gets[0][0], 1, through_calls=False)
             if not dep.has_param(ko, "name") or dep.consts_of(ko):
                 probs.append("the lookup key is not the `name` parameter")
+            elif not dep.has_param(kd, "name"):
+                via = sorted({a[1].rsplit("::", 1)[-1] for a in kd if a[0] == "call" and a[1]})
+                probs.append("the table is looked up under %s(name), not under the name itself: distinct names share one entry" % "/".join(via))
             to = dep.arg_origins(body, gets[0][0], 0)
             if not (dep.has_param(to, "table") if tbl_is_param else dep.has_field(to, owner, "name_to_ip")):
                 probs.append("the lookup is not on the name table")
